@@ -121,6 +121,9 @@ func genBundle(r *R, opts FlatOpts, plus bool, thorough bool, force map[string]b
 	flag("sharedBody", 40)
 	flag("headers", 30)
 	flag("noOpIDs", 25)
+	flag("security", 45)
+	flag("opMedia", 35)
+	flag("paramEnums", 35)
 	naux := 0
 	switch x := r.Intn(10); {
 	case x < 2:
@@ -237,6 +240,24 @@ func (g *bundleGen) assemble(d *gDoc) obj {
 		if g.r.P(30) {
 			doc["host"] = "example.org"
 			doc["basePath"] = "/v1"
+		}
+		if g.on("security") {
+			doc["securityDefinitions"] = obj{
+				"apiKey": obj{"type": "apiKey", "name": "X-Key", "in": "header"},
+				"oauth":  obj{"type": "oauth2", "flow": "implicit", "authorizationUrl": "http://a/auth", "scopes": obj{"read": "r", "write": "w"}},
+				"basic":  obj{"type": "basic"},
+			}
+			switch g.r.Intn(4) {
+			case 0:
+				doc["security"] = []any{obj{"apiKey": []any{}}}
+			case 1:
+				doc["security"] = []any{obj{"oauth": []any{"read"}}, obj{"basic": nil}}
+			case 2:
+				doc["security"] = []any{obj{"apiKey": nil}}
+			}
+		}
+		if g.on("opMedia") && g.r.P(50) {
+			doc["tags"] = []any{obj{"name": "pets", "description": "p"}}
 		}
 	}
 	return doc
@@ -620,6 +641,13 @@ func (g *bundleGen) simpleParam(name, in string) obj {
 	if g.r.P(15) {
 		p["pattern"] = "^x"
 	}
+	if g.on("paramEnums") && g.r.P(40) {
+		if p["type"] == "array" {
+			p["items"] = obj{"type": "string", "enum": []any{"u", "v"}, "pattern": "^[uv]$"}
+		} else {
+			p["enum"] = []any{"e1", "e2"}
+		}
+	}
 	return p
 }
 
@@ -634,6 +662,10 @@ func (g *bundleGen) response(d *gDoc) obj {
 	}
 	if g.on("headers") && g.r.P(40) {
 		resp["headers"] = obj{"X-Rate": obj{"type": "integer"}}
+		if g.on("paramEnums") {
+			resp["headers"] = obj{"X-Rate": obj{"type": "integer", "enum": []any{1, 2}}, "X-Tag": obj{"type": "string", "pattern": "^t"},
+				"X-List": obj{"type": "array", "items": obj{"type": "string", "enum": []any{"a"}, "pattern": "^a"}}}
+		}
 	}
 	return resp
 }
@@ -736,6 +768,31 @@ func (g *bundleGen) operation(d *gDoc, pathHasID bool, pathLevelBody bool) obj {
 		resps[code] = g.response(d)
 	}
 	op["responses"] = resps
+	if g.on("security") && r.P(50) {
+		switch r.Intn(5) {
+		case 0:
+			op["security"] = []any{} // explicitly empty: disables security for this operation
+		case 1:
+			op["security"] = []any{obj{"apiKey": []any{}}}
+		case 2:
+			op["security"] = []any{obj{"oauth": []any{"read", "write"}}, obj{"apiKey": nil}}
+		case 3:
+			op["security"] = []any{obj{"basic": nil}}
+		case 4:
+			op["security"] = []any{obj{}, obj{"apiKey": []any{}, "oauth": []any{"read"}}}
+		}
+	}
+	if g.on("opMedia") && r.P(50) {
+		if r.P(60) {
+			op["consumes"] = []any{"application/xml", "application/json"}
+		}
+		if r.P(60) {
+			op["produces"] = []any{"text/plain"}
+		}
+		if r.P(40) {
+			op["tags"] = []any{"pets"}
+		}
+	}
 	return op
 }
 
